@@ -197,3 +197,55 @@ def grid():
 
 ENTRY = {"level": ["get_comparison_level", "create_level_dict"], "comparison": ["get_comparison", "create_comparison_dict"],
          "blocking": ["get_blocking_rule", "create_blocking_rule_dict"], "settings": ["get_settings", "create_settings_dict"]}
+
+
+def arg_cases():
+    """specifications built from objects the caller keeps: the objects must come back unchanged, building the
+    same specification twice from them must give the same result, and sharing one sub-creator between two
+    places must be the same as using two equal fresh ones.  dict(kind, label, make_args, build, unshared)"""
+    import splink.internals.blocking_rule_library as brl
+    import splink.internals.comparison_level_library as cll
+    import splink.internals.comparison_library as cl
+    from splink.internals.settings_creator import SettingsCreator
+    out = []
+
+    def add(kind, label, make_args, build, unshared=None):
+        out.append({"kind": kind, "label": label, "make_args": make_args, "build": build, "unshared": unshared})
+
+    null = lambda: cll.NullLevel("email")      # noqa: E731
+    add("level", "Not(shared null level)", lambda: [null()], lambda a: cll.Not(a[0]))
+    add("level", "And(null, exact)", lambda: [null(), cll.ExactMatchLevel("email")], lambda a: cll.And(a[0], a[1]))
+    add("level", "Or(Not(null), exact)", lambda: [null(), cll.ExactMatchLevel("email")], lambda a: cll.Or(cll.Not(a[0]), a[1]))
+    add("level", "Not(level dict)", lambda: [{"sql_condition": "a_l = a_r", "label_for_charts": "a"}], lambda a: cll.Not(a[0]))
+    add("comparison", "CustomComparison(null shared with And(Not(null), exact))", lambda: [null()],
+        lambda a: cl.CustomComparison(output_column_name="email", comparison_levels=[
+            a[0], cll.And(cll.Not(a[0]), cll.ExactMatchLevel("email")), cll.ElseLevel()]),
+        lambda a: cl.CustomComparison(output_column_name="email", comparison_levels=[
+            a[0], cll.And(cll.Not(null()), cll.ExactMatchLevel("email")), cll.ElseLevel()]))
+    add("comparison", "CustomComparison(exact level shared by two levels)", lambda: [cll.ExactMatchLevel("email")],
+        lambda a: cl.CustomComparison(output_column_name="email", comparison_levels=[
+            cll.NullLevel("email"), a[0], cll.Or(a[0], cll.LevenshteinLevel("email", 1)), cll.ElseLevel()]),
+        lambda a: cl.CustomComparison(output_column_name="email", comparison_levels=[
+            cll.NullLevel("email"), a[0], cll.Or(cll.ExactMatchLevel("email"), cll.LevenshteinLevel("email", 1)), cll.ElseLevel()]))
+    add("comparison", "CustomComparison(level dicts)",
+        lambda: [[{"sql_condition": "a_l IS NULL OR a_r IS NULL", "label_for_charts": "n", "is_null_level": True},
+                  {"sql_condition": "a_l = a_r", "label_for_charts": "e", "m_probability": 0.5}, {"sql_condition": "ELSE", "label_for_charts": "o"}]],
+        lambda a: cl.CustomComparison(output_column_name="a", comparison_levels=a[0]))
+    add("blocking", "Not(shared rule)", lambda: [brl.block_on("name")], lambda a: brl.Not(a[0]))
+    add("blocking", "And(rule, Or(rule, other))", lambda: [brl.block_on("name", salting_partitions=2), brl.block_on("dob")],
+        lambda a: brl.And(a[0], brl.Or(a[0], a[1])), lambda a: brl.And(a[0], brl.Or(brl.block_on("name", salting_partitions=2), a[1])))
+    add("blocking", "Or(rule dict)", lambda: [{"blocking_rule": "l.x = r.x", "sql_dialect": "duckdb"}], lambda a: brl.Or(brl.block_on("name"), a[0]))
+
+    def settings_dict():
+        return {"link_type": "dedupe_only",
+                "comparisons": [cl.ExactMatch("name").create_comparison_dict("duckdb")],
+                "blocking_rules_to_generate_predictions": [
+                    {"blocking_rule": "SUBSTR(l.name, 1, 2) = SUBSTR(r.name, 1, 2)", "sql_dialect": "duckdb"},
+                    {"blocking_rule": "l.dob = r.dob", "sql_dialect": "duckdb", "salting_partitions": 2}, "l.city = r.city"],
+                "additional_columns_to_retain": ["age"], "sql_dialect": "duckdb"}
+    add("settings", "from_path_or_dict(settings dict with rule dicts carrying sql_dialect)", lambda: [settings_dict()],
+        lambda a: SettingsCreator.from_path_or_dict(a[0]))
+    add("settings", "SettingsCreator(shared comparison and rule creators)",
+        lambda: [cl.ExactMatch("name").configure(term_frequency_adjustments=True), brl.block_on("name")],
+        lambda a: SettingsCreator(link_type="dedupe_only", comparisons=[a[0]], blocking_rules_to_generate_predictions=[a[1], a[1]]))
+    return out
